@@ -152,12 +152,14 @@ struct Run {
                 else if (o == "addbp") { BlockParameters bp = vr::bp_in(op["bp"]); ret = exp->add_block_parameters(bp); }
                 else if (o == "setbp") ret = exp->set_active_block_parameters(static_cast<index_t>(op["i"].get<uint64_t>())) ? 1 : 0;
                 else if (o == "counts") ret = 0;
+                else if (o == "editbp") { exp->get_active_block_parameters_ref() = vr::bp_in(op["bp"]); ret = 0; }
                 else if (o == "wbx") {
                     // a block the application builds directly with the raw add_* API and hands to write_block(block)
                     index_t bpi = static_cast<index_t>(op["bpi"].get<uint64_t>());
                     BlockParameters bp = vr::bp_in(op["bp"]);
                     CdnsBlock blk(bp, bpi);
                     vr::raw_block_fill(blk, op);
+                    if (op.value("noidx", false)) blk.m_block_preamble.block_parameters_index = boost::none;   // implicit index 0
                     ev["items"] = blk.get_item_count();
                     ret = exp->write_block(blk);
                 }
